@@ -1,9 +1,81 @@
-(* C45 - Session.merge copies state onto the session's single instance (statements; proofs in coq/orm/Merge*.v) *)
+(* C45 - Session.merge copies state onto the session's single instance.
+   Statements only; proofs in coq/orm/Merge*.v.  Model: coq/orm/Merge.v (mapping A(id,x,y,bs) / B(id,aid,v,a),
+   source graph = one A with its B children, any database, any prepared session). *)
 From Coq Require Import List Bool Arith ZArith.
-From SAV.base Require Import Tree.
-From SAV.orm Require Import Merge MergeRun.
+From SAV.orm Require Import Merge MergeProofs MergeValues MergeIdem MergeWf MergeMain.
 Import ListNotations.
 
-Theorem c45_placeholder : run_case (L []) = bad_input.
-Proof. reflexivity. Qed.
-Print Assumptions c45_placeholder.
+(* ---- load_false_no_sql_no_dirty ----
+   with load=False no statement is sent, no pending object appears, no instance becomes modified, and the merged
+   instance and every member of its merged collection carry no history at all *)
+Theorem c45_load_false_no_sql_no_dirty : forall cfg sbs s src s' t,
+  srcsB_ok sbs -> srcA_ok src ->
+  merge_A cfg false sbs s src = Some (s', t) ->
+  sql s' = sql s /\ pendings s' = pendings s /\
+  (forall x, modf s' x = true -> modf s x = true) /\
+  clean s' t /\
+  (mf cfg = true -> forall js, sa_bs src = SV js -> exists dest, bs s' t = Some dest /\ forall c, In c dest -> clean s' c).
+Proof. exact merge_load_false_no_sql_no_dirty. Qed.
+Print Assumptions c45_load_false_no_sql_no_dirty.
+
+(* ---- merge_returns_identity_instance + merged_values_eq_loaded_source_values ----
+   the result is the instance the session already holds for the key (or becomes the identity-map entry when it is
+   created with load=False / loaded from an existing row); a loaded source column is copied, an unloaded one leaves
+   the target's value: the existing one, the one loaded from the row, or none *)
+Theorem c45_merge_identity_and_values : forall cfg load sbs s src s' t,
+  wf s -> merge_A cfg load sbs s src = Some (s', t) ->
+  (forall pk, sa_pk src = Some pk ->
+     (forall e, idA s pk = Some e -> t = e) /\
+     (load = false \/ idA s pk <> None \/ assoc pk (rowsA cfg) <> None -> idA s' pk = Some t)) /\
+  cols s' t 1 = copied (sa_x src) (base_col cfg load s src 1) /\
+  cols s' t 2 = copied (sa_y src) (base_col cfg load s src 2).
+Proof. exact merge_identity_and_values. Qed.
+Print Assumptions c45_merge_identity_and_values.
+
+Example c45_wf_is_satisfiable : wf m0.
+Proof. exact wf_m0. Qed.
+
+(* well-formedness is an invariant of every history of get / collection load / attribute set / merge operations
+   (induction over the operation list) ... *)
+Theorem c45_wf_all_histories : forall cfg sas sbs ops, wf (mrun cfg sas sbs m0 ops).
+Proof. exact wf_all_histories. Qed.
+Print Assumptions c45_wf_all_histories.
+
+(* ... so identity and values hold for a merge issued after ANY history *)
+Theorem c45_merge_identity_and_values_after_any_history : forall cfg sas sbs ops load src s' t,
+  let s := mrun cfg sas sbs m0 ops in
+  merge_A cfg load sbs s src = Some (s', t) ->
+  (forall pk, sa_pk src = Some pk ->
+     (forall e, idA s pk = Some e -> t = e) /\
+     (load = false \/ idA s pk <> None \/ assoc pk (rowsA cfg) <> None -> idA s' pk = Some t)) /\
+  cols s' t 1 = copied (sa_x src) (base_col cfg load s src 1) /\
+  cols s' t 2 = copied (sa_y src) (base_col cfg load s src 2).
+Proof. exact merge_after_any_history. Qed.
+Print Assumptions c45_merge_identity_and_values_after_any_history.
+
+(* ---- merge_idempotent ----
+   refuted: a source whose key has no row is copied to a NEW pending object by every merge *)
+Theorem c45_merge_idempotent_refuted :
+  exists cfg sbs s src s1 t1 s2 t2,
+    wf s /\ merge_A cfg true sbs s src = Some (s1, t1) /\ merge_A cfg true sbs s1 src = Some (s2, t2) /\
+    t2 <> t1 /\ pendings s1 = [t1] /\ pendings s2 = [t1; t2] /\ cols s2 t1 0 = cols s2 t2 0.
+Proof. exact merge_idempotent_refuted. Qed.
+Print Assumptions c45_merge_idempotent_refuted.
+
+(* guarded (the key resolves to a persistent instance); proved for merges that copy columns only - the source
+   collection is not loaded or A.bs has no merge cascade.  Missing: the same statement with a merged collection *)
+Theorem c45_merge_idempotent_guarded_partial : forall cfg load sbs s src s1 t,
+  wf s -> merge_A cfg load sbs s src = Some (s1, t) ->
+  (forall pk, sa_pk src = Some pk -> load = false \/ idA s pk <> None \/ assoc pk (rowsA cfg) <> None) ->
+  sa_pk src <> None ->
+  (sa_bs src = SU \/ mf cfg = false) ->
+  exists s2, merge_A cfg load sbs s1 src = Some (s2, t) /\ same_session s2 s1 /\ sql s2 = sql s1.
+Proof. exact merge_idempotent_columns_partial. Qed.
+Print Assumptions c45_merge_idempotent_guarded_partial.
+
+Example c45_idempotent_example :
+  let cfg := mkMC true true true [(1, (Some 10%Z, Some 20%Z))] [] in
+  let src := mkSA true (Some 1) (SV (Some 15%Z)) SU SU in
+  exists s1 t, merge_A cfg true [] m0 src = Some (s1, t) /\ cols s1 t 1 = Some (Some 15%Z) /\
+               cols s1 t 2 = Some (Some 20%Z) /\ sql s1 = 1.
+Proof. eexists. eexists. vm_compute. repeat split. Qed.
